@@ -1,13 +1,13 @@
 SPECIFICATION Spec
 CONSTANTS
   Fault = "none"
-  Cfgs <- T5B_Cfgs
+  Cfgs <- QH_Cfgs
   Soc0s <- SocAll
   Dts <- Dt2
-  Engs <- OnOnly
-  ClsOn <- T5_BelCls
-  ClsOff <- ClsZero
-  Depth = 5
+  Engs <- Bools
+  ClsOn <- QH_On
+  ClsOff <- QH_Off
+  Depth = 3
 INVARIANT L1
 INVARIANT L1s
 INVARIANT L2
@@ -49,5 +49,5 @@ INVARIANT LocoPub
 INVARIANT Ramp
 INVARIANT SocWindow
 INVARIANT PublishedSane
-VIEW View
+INVARIANT Emit
 CHECK_DEADLOCK FALSE
